@@ -675,10 +675,19 @@ func main() {
 	if opts.Thorough() {
 		nGuard, nColl, nConc = 7000, 3000, 500
 	}
-	// the witness of C21_refuted_shash on the real code: push A, push B (same short hash), remove B
-	runHist(o, histSpec{Stream: "collide-witness", Seed: opts.Seed, QCap: 4, PerAcc: 4, LastMax: 4, ShMax: 4, Interval: 600,
-		Txs: []txSpec{{Kind: "collideA", Sender: 0, Fee: 1000, Expire: []int64{0}, Pair: 0}, {Kind: "collideB", Sender: 1, Fee: 1000, Expire: []int64{0}, Pair: 0}},
-		Events: []evSpec{{Op: "push", Txs: []int{0}}, {Op: "push", Txs: []int{1}}, {Op: "remove", Txs: []int{1}}}})
+	pairTxs := []txSpec{{Kind: "collideA", Sender: 0, Fee: 1000, Expire: []int64{0}, Pair: 0}, {Kind: "collideB", Sender: 1, Fee: 1000, Expire: []int64{0}, Pair: 0}}
+	witness := func(stream string, evs ...evSpec) {
+		runHist(o, histSpec{Stream: stream, Seed: opts.Seed, QCap: 4, PerAcc: 4, LastMax: 4, ShMax: 4, Interval: 600, Txs: pairTxs, Events: evs})
+	}
+	pushA, pushB := evSpec{Op: "push", Txs: []int{0}}, evSpec{Op: "push", Txs: []int{1}}
+	// the witness of C21_refuted_shash on the real code: push A, push B (same short hash), remove A
+	witness("collide-witness", pushA, pushB, evSpec{Op: "remove", Txs: []int{0}})
+	// the earlier witness (repaired by chain33 a576c70, C21_owner_kept_under_collision): push A, push B, remove B;
+	// variants removing B through a block / removing and re-adding: no spec failure may occur in these
+	witness("collide-repaired", pushA, pushB, evSpec{Op: "remove", Txs: []int{1}})
+	witness("collide-repaired", pushA, pushB, evSpec{Op: "addblock", Txs: []int{1}, Height: 1})
+	witness("collide-repaired", pushB, pushA, evSpec{Op: "remove", Txs: []int{0}}, pushA, evSpec{Op: "remove", Txs: []int{0, 0}})
+	witness("collide-repaired", pushA, pushB, evSpec{Op: "remove", Txs: []int{1, 0}}, pushB, pushA, evSpec{Op: "addblock", Txs: []int{0}, Height: 1})
 	for i := 0; i < nGuard; i++ {
 		runHist(o, genHist("guarded", opts.Seed, i, opts.Thorough()))
 	}
